@@ -1,7 +1,10 @@
 #!/bin/bash
-# Build the Coq development from files on disk only (offline). Full .vo build.
-set -e
-cd "$(dirname "$0")/coq"
+# Build the Coq development from files on disk only (offline). Full .vo build (never -vos).
+# -k: a file that fails to build must not prevent the others from being built; each check re-builds the
+# dependency closure of its own Props file and reports a failure there as a broken proof obligation.
+cd "$(dirname "$0")/coq" || exit 1
 export OCAMLRUNPARAM='s=4M,h=256M'
-coq_makefile -f _CoqProject -o Makefile $(find theories -name '*.v' | sort)
-timeout 7200 make -j16
+coq_makefile -f _CoqProject -o Makefile $(find theories -name '*.v' | sort) || exit 1
+timeout 7200 make -k -j16
+echo "setup: make exit status $?"
+exit 0
